@@ -27,6 +27,9 @@ func runC08(x *mc.X) {
 	}
 	w := world.New(world.Opt{})
 	defer w.Close()
+	// "two": every second exchange goes through a second transport over the same store (nothing a transport
+	// remembers outside the store may matter)
+	w.Alternate = mc.Pick(x, "transports", []string{"one", "two"}) == "two"
 	lm := httpDate(w.Epoch.Add(-secs(100)))
 	baseH := func(ccv string) [][2]string {
 		h := H("Vary", "X-A")
